@@ -129,6 +129,17 @@ def main():
             # remove a directory (used to provoke a real chdir launch failure for a later task)
             import shutil
             shutil.rmtree(step[1], ignore_errors=True)
+        elif op == "rmout":
+            # the command ends by moving its results elsewhere (`mv $COND_OUT ../kept/final`), by deleting its output
+            # directory, or by replacing it with a link to where the results really are
+            import shutil
+            if step[1] == "delete":
+                shutil.rmtree(out, ignore_errors=True)
+            else:
+                kept = os.path.join(os.path.dirname(out), "kept-elsewhere-%d" % os.getpid())
+                os.rename(out, kept)
+                if step[1] == "replace-with-link":
+                    os.symlink(kept, out)
         elif op == "marker":
             with open(os.path.join(out, "DONE"), "w") as f:
                 f.write(task)
